@@ -8,15 +8,15 @@ import Mathlib.Algebra.Order.Field.Basic
 # C08 lemmas — `Vec2/3::length()` (with `lengthTiny` inlined) is the Euclidean norm
 
 `Gen.V2.length`, `Gen.V3.length` are the REAL bodies of `Vec2/3<T>::length()` extracted at `T = Sym`
-(harness/sym/sym_leaf.cpp → Gen/Leaf.lean; 5 / 65 paths).  (`Gen.V4.length`, 257 paths, is in
+(harness/sym/sym_leaf.cpp → Gen/Leaf.lean; 9 / 129 paths).  (`Gen.V4.length`, 513 paths, is in
 `Lemmas/C08LemmasV4.lean` so that the two big trees elaborate in parallel.)
 
 Everything is over an arbitrary ordered field `α` with a function `sqrt : α → α` that satisfies
 `hsqrt : ∀ x, 0 ≤ x → sqrt x * sqrt x = x ∧ 0 ≤ sqrt x` (true for `Real.sqrt`, see `Props/C08.lean`).
-`tmin` (`std::numeric_limits<T>::min()`) is arbitrary: the result is the same on both sides of the
-`dot < 2*tmin` threshold.
+`tmin`, `tmax` (`std::numeric_limits<T>::min()/max()`) are arbitrary: the result is the same on every side of
+the guard `dot < 2*tmin || dot > tmax` (since /repo 16a5ca8 the scaled branch is also taken when the squares overflow).
 
-Proof scheme that scales to the 257-path tree: `ite_eq_of` peels one `if` at a time (no simp pass over the
+Proof scheme that scales to the 513-path tree: `ite_eq_of` peels one `if` at a time (no simp pass over the
 whole tree), and every leaf is one of three shapes
   * `sqrt (Σ xᵢ²)`                      – the direct branch,
   * `m * sqrt (Σ (pᵢ/m)²)` with `m = ±xⱼ` – `scaled_div` (`scaledN` are its readable instances): equals
@@ -147,8 +147,8 @@ theorem sumsq4_eq_zero {x y z w : α} : x * x + y * y + z * z + w * w = 0 ↔ x 
 
 /-! ## the extracted `length()` trees -/
 
-/-- `Vec2<T>::length()` (real body, `lengthTiny` inlined, 5 paths) is `sqrt (x² + y²)` for EVERY vector and
-every threshold `tmin` — on both sides of `dot < 2*tmin`. -/
+/-- `Vec2<T>::length()` (real body, `lengthTiny` inlined, 9 paths) is `sqrt (x² + y²)` for EVERY vector and
+all limits `tmin`, `tmax` — on every side of the guard `dot < 2*tmin || dot > tmax`. -/
 theorem V2_length_eq (tmin tmax : α) (hsqrt : ∀ x, 0 ≤ x → sqrt x * sqrt x = x ∧ 0 ≤ sqrt x) (a : V2 α) :
     Gen.V2.length tmin tmax sqrt a = sqrt (a.x * a.x + a.y * a.y) := by
   obtain ⟨x, y⟩ := a
@@ -163,8 +163,8 @@ theorem V2_length_eq (tmin tmax : α) (hsqrt : ∀ x, 0 ≤ x → sqrt x * sqrt 
         (abs_eq_zero.1 (le_antisymm (by linarith) (by linarith))) (by ring))
     | (refine scaled_div hsqrt (lt_of_le_of_ne' (by linarith) (by assumption)) hS0 ?_; rw [e]; ring)
 
-/-- `Vec3<T>::length()` (real body, `lengthTiny` inlined, 65 paths) is `sqrt (x² + y² + z²)` for EVERY
-vector and every threshold `tmin`. -/
+/-- `Vec3<T>::length()` (real body, `lengthTiny` inlined, 69 paths) is `sqrt (x² + y² + z²)` for EVERY
+vector and all limits `tmin`, `tmax`. -/
 theorem V3_length_eq (tmin tmax : α) (hsqrt : ∀ x, 0 ≤ x → sqrt x * sqrt x = x ∧ 0 ≤ sqrt x) (a : V3 α) :
     Gen.V3.length tmin tmax sqrt a = sqrt (a.x * a.x + a.y * a.y + a.z * a.z) := by
   obtain ⟨x, y, z⟩ := a
